@@ -3,6 +3,7 @@
 DESIGN.md section 7, C10."""
 import os
 import sys
+import warnings
 
 sys.path.insert(0, os.path.join(os.path.dirname(os.path.abspath(__file__)), '..'))
 from common import Check
@@ -21,7 +22,7 @@ def run_cases(ck, res, n_cases, n_interval, exhaustive=False):
     if not exhaustive:
         modes = r.sample(modes, min(n_cases, len(modes)))
     goals, dist = [], {'ivp': 0, 'bvp': 0, 'names_in_lookup': {}}
-    for (kind, n, lk, pa) in modes:
+    for ci, (kind, n, lk, pa) in enumerate(modes):
         nrows = 4
         attrs = {'t_0': dy(r, -2, 2), 'u_0': dy(r, -3, 3), 'u_0_prime': dy(r, -3, 3), 'u_1': dy(r, -3, 3)}
         attrs['t_1'] = attrs['t_0'] + r.choice([-1, 1]) * (dy(r, 0, 2) + 0.25)
@@ -38,11 +39,23 @@ def run_cases(ck, res, n_cases, n_interval, exhaustive=False):
         ts = [rowval('t_0', 0), rowval('t_1', 1) if kind == 'bvp' else dy(r, -2, 2, 4), dy(r, -2, 2, 4), dy(r, -2, 2, 4)]
         net_p = Probe(1 + M, r, nterms=2)
         net = make_net([net_p])
+        # a sixth of the conditions are built with the documented DEPRECATED spellings (bundle_conditions=, x_0=, positional
+        # arguments with an omitted u_0_prime): the lookup table must reach the condition unchanged through the renaming decorator
+        spelling = 'deprecated' if ci % 6 == 5 else 'new'
         try:
-            if kind == 'ivp':
-                cond = C.BundleIVP(t_0=attrs['t_0'], u_0=attrs['u_0'], u_0_prime=attrs['u_0_prime'] if pa else None, bundle_param_lookup=dict(lk))
-            else:
-                cond = C.BundleDirichletBVP(t_0=attrs['t_0'], u_0=attrs['u_0'], t_1=attrs['t_1'], u_1=attrs['u_1'], bundle_param_lookup=dict(lk))
+            with warnings.catch_warnings():
+                warnings.simplefilter('ignore')
+                if kind == 'ivp' and spelling == 'deprecated':
+                    if pa:
+                        cond = C.BundleIVP(attrs['t_0'], x_0=attrs['u_0'], x_0_prime=attrs['u_0_prime'], bundle_conditions=dict(lk))
+                    else:
+                        cond = C.BundleIVP(attrs['t_0'], attrs['u_0'], bundle_conditions=dict(lk))
+                elif kind == 'ivp':
+                    cond = C.BundleIVP(t_0=attrs['t_0'], u_0=attrs['u_0'], u_0_prime=attrs['u_0_prime'] if pa else None, bundle_param_lookup=dict(lk))
+                elif spelling == 'deprecated':
+                    cond = C.BundleDirichletBVP(attrs['t_0'], attrs['u_0'], attrs['t_1'], attrs['u_1'], bundle_conditions=dict(lk))
+                else:
+                    cond = C.BundleDirichletBVP(t_0=attrs['t_0'], u_0=attrs['u_0'], t_1=attrs['t_1'], u_1=attrs['u_1'], bundle_param_lookup=dict(lk))
             T = enga.col(torch, ts)
             THS = [enga.col(torch, c) for c in cols]
             u = cond.enforce(net, T, *THS)
@@ -52,7 +65,7 @@ def run_cases(ck, res, n_cases, n_interval, exhaustive=False):
             continue
         uv = [float(x) for x in u.detach().reshape(-1)]
         dv = [float(x) for x in du.detach().reshape(-1)]
-        inp = {'kind': kind, 'lookup': lk, 'prime_attr': pa, 'attrs': attrs, 'columns': cols, 't': ts, 'net': net_p.describe()}
+        inp = {'kind': kind, 'lookup': lk, 'prime_attr': pa, 'attrs': attrs, 'columns': cols, 't': ts, 'net': net_p.describe(), 'constructor_spelling': spelling}
         scale = 1 + max(abs(x) for x in uv)
         # ---- the property's oracle
         if not enga.close(uv[0], rowval('u_0', 0), scale, rel=enga.EXACT):
